@@ -6,7 +6,7 @@ import Bt.Driver.Tok
   (the harness numbers the distinct names in sorted string order, so `≤` on the numbers is pandas'
   `sort_index` order on the names).
 
-    report hist   <fi> <boSet> <nodes: list (full short isSec)> <dates: list (list cell)>
+    report hist   <fi> <boSet> <nodes: list (full short isSec mult)> <dates: list (list cell)>
                   cell = value notl pos outlay boPaid cash price?
       -> ok <dates: list (weights secWeights positions outlays herfindahl turnover? price?)> <transactions>
     report replay <boSet> <tol> <comm kind m k> <cash0> <secs: list (name mult)>
@@ -18,14 +18,18 @@ open Bt.Tok Bt.Report
 
 namespace Rep
 
-def pNodeInfo : P (Report.Node Nat) := do
-  let full ← nat; let short ← nat; let isSec ← bool
-  pure { full, short, isSec }
+def pNodeInfo : P (Report.Node Nat × Float) := do
+  let full ← nat; let short ← nat; let isSec ← bool; let mult ← float
+  pure ({ full, short, isSec }, mult)
 
 def pCell : P (Cell Float) := do
   let value ← float; let notl ← float; let pos ← float; let outlay ← float; let boPaid ← float
   let cash ← float; let price ← opt float
-  pure { value, notl, pos, outlay, boPaid, cash, price }
+  pure { value, notl, pos, outlay, boPaid, cash, price, mult := 1.0 }
+
+/-- a date's rows with the nodes' (static) multipliers filled in -/
+def mkSnap (nodes : List (Report.Node Nat × Float)) (cells : List (Cell Float)) : Snap Nat Float :=
+  (nodes.zip cells).map (fun nc => (nc.1.1, { nc.2 with mult := nc.1.2 }))
 
 def prKO (l : List (Nat × Option Float)) : List String :=
   pList (fun kx => pNat kx.1 ++ pOpt pFloat kx.2) l
@@ -44,7 +48,7 @@ def pHist : P String := do
   let fi ← bool; let boSet ← bool
   let nodes ← list pNodeInfo
   let rows ← list (list pCell)
-  let run : Run Nat Float := { fi, boSet, dates := rows.map (fun cells => nodes.zip cells) }
+  let run : Run Nat Float := { fi, boSet, dates := rows.map (mkSnap nodes) }
   pure ("ok " ++ " ".intercalate (pList prDay (reports run) ++ pList prTxn (transactions run)))
 
 def pTxn : P (Txn Nat Float × Option Float) := do
